@@ -6,6 +6,9 @@ Decided structural clauses:
   WINDOW  every (start, end) handed to pairs::new / tokens::new / flat_pairs::new denotes whole pairs
           under the half-open convention
   GUARD   every evaluation that needs a non-empty window sits under a guard establishing start < end
+  COUNT   the cached pair count is decremented exactly once on every window-moving path
+  LINEBREAK  the two line counters (LineIndex for pairs, Position::line_col for spans/errors) break lines
+          on the same character
 """
 from .. import facts, hirq
 from ..hirq import walk, kind, callee, where, peel, PathEnum, exits
@@ -50,6 +53,8 @@ def run(rep, tier):
         link(rep, c, sfx)
         window(rep, c, sfx)
         guard(rep, c, sfx)
+        count(rep, c, sfx)
+        linebreak(rep, c, sfx)
 
 
 # ------------------------------------------------------------------ CTOR
@@ -396,3 +401,120 @@ def guard(rep, c, sfx):
                         "wrong token" % what)
     r.note("requires-nonempty helpers: %s; Option summaries (Some only if start<end): %s" % (
         sorted(requires), sorted(safe_opt)))
+
+
+# ------------------------------------------------------------------ COUNT (cached pair count)
+
+def count(rep, c, sfx):
+    r = rep.rule("C04.COUNT" + sfx, 3,
+                 "the cached pair count of Pairs is decremented exactly once on every path that moves the window "
+                 "(sibling iterator steps next / next_back agree), and only there")
+    P = WINDOW_TYPES[0]
+    adt = c.adt(P)
+    if adt is None:
+        r.lost("Pairs")
+        return
+    counters = [f["name"] for f in adt["variants"][0]["fields"] if f["ty"] == "usize" and f["name"] not in ("start", "end")]
+    if len(counters) != 1:
+        r.lost("single cached counter field of Pairs (found %s)" % counters)
+        return
+    cnt = counters[0]
+    for fn in c.bodies:
+        if not (fn.get("impl_self") or "").startswith(P):
+            continue
+        touches = [n for n in walk(fn["body"]) if kind(n) in ("Assign", "AssignOp")
+                   and (hirq.place(n["l"]) or ("", 0, []))[0] == "self"
+                   and (hirq.place(n["l"]) or ("", 0, [""]))[2][:1] in (["start"], ["end"], [cnt])]
+        if not touches:
+            continue
+        pe = PathEnum(fn)
+        n_moving = 0
+        for (ev, out) in exits(pe.paths()):
+            moves = [e for e in ev if e.kind == "assign" and (hirq.place(e.node["l"]) or ("", 0, []))[0] == "self"
+                     and (hirq.place(e.node["l"]) or ("", 0, [""]))[2][:1] in (["start"], ["end"])]
+            decs = [e for e in ev if e.kind == "assign" and (hirq.place(e.node["l"]) or ("", 0, []))[0] == "self"
+                    and (hirq.place(e.node["l"]) or ("", 0, [""]))[2][:1] == [cnt]]
+            if moves:
+                n_moving += 1
+            bad = None
+            if len(moves) != len(decs):
+                bad = "moves the window %d time(s) but updates `%s` %d time(s)" % (len(moves), cnt, len(decs))
+            else:
+                for d in decs:
+                    if not (kind(d.node) == "AssignOp" and d.node["op"] == "-=" and hirq.lit_value(d.node["r"]) == 1):
+                        bad = "updates `%s` by something other than `-= 1`" % cnt
+            if bad:
+                r.violation("%s" % fn["path"], where(touches[0]),
+                            "a path of %s %s: len()/size_hint()/is_empty() disagree with what iteration yields "
+                            "(sibling step functions do keep the count)" % (fn["name"], bad))
+        r.instance(fn["path"], where(fn["body"]), "%d window-moving paths" % n_moving)
+    # the constructor computes the count by hopping end_token_index
+    new = c.fn("pest::iterators::pairs::new")
+    if new is None:
+        r.lost("pairs::new")
+    else:
+        inc = [n for n in walk(new["body"]) if kind(n) == "AssignOp" and n["op"] == "+=" and hirq.lit_value(n["r"]) == 1]
+        r.instance("pairs::new", where(new["body"]), "%d counting increments" % len(inc))
+        if not inc:
+            r.violation("pairs::new", where(new["body"]), "constructor no longer counts the pairs of the window")
+
+
+# ------------------------------------------------------------------ LINEBREAK (sibling line counters)
+
+def char_lits(n):
+    out = set()
+    for x in walk(n):
+        if x.get("k") in ("Lit", "PLit") and x.get("lk") == "char":
+            out.add(x.get("v"))
+    return out
+
+
+def linebreak(rep, c, sfx):
+    r = rep.rule("C04.LINEBREAK" + sfx, 2,
+                 "the two line counters agree on what ends a line: LineIndex::new records a line start only "
+                 "after '\\n', and Position::line_col increments the line only on a path that consumed '\\n'")
+    li = c.fn("pest::iterators::line_index::LineIndex::new")
+    if li is None:
+        r.lost("LineIndex::new")
+    else:
+        ctx = hirq.Ctx(li)
+        pushes = [n for n in walk(li["body"]) if kind(n) == "MethodCall" and n["m"] == "push"]
+        if not pushes:
+            r.lost("line start push in LineIndex::new")
+        for p in pushes:
+            chars = set()
+            for g in ctx.guards(p):
+                if g[0] in ("if", "guard"):
+                    chars |= char_lits(g[1])
+                elif g[0] == "arm":
+                    chars |= char_lits(g[1]["arms"][g[2]]["pat"])
+            r.instance("LineIndex::new", where(p), "line start recorded under chars %s" % sorted(chars))
+            if chars != {"\n"}:
+                r.violation("LineIndex::new", where(p),
+                            "a line start is recorded under %s, not exactly after '\\n': Pair::line_col disagrees "
+                            "with Position::line_col for inputs containing the other character" % sorted(chars))
+    pl = c.fn("pest::position::Position::line_col")
+    if pl is None:
+        r.lost("Position::line_col")
+        return
+    # assignments whose rhs tuple increments component 0
+    ctx = hirq.Ctx(pl)
+    incs = []
+    for n in walk(pl["body"]):
+        if kind(n) == "Assign" and kind(peel(n["r"])) == "Tup":
+            first = peel(peel(n["r"])["elems"][0])
+            if kind(first) == "Binary" and first["op"] == "+" and hirq.lit_value(first["r"]) == 1:
+                incs.append(n)
+    if not incs:
+        r.lost("line increments in Position::line_col")
+    for n in incs:
+        chars = set()
+        for g in ctx.guards(n):
+            if g[0] in ("if", "guard"):
+                chars |= char_lits(g[1])
+            elif g[0] == "arm":
+                chars |= char_lits(g[1]["arms"][g[2]]["pat"])
+        r.instance("Position::line_col@%d" % len(chars), where(n), "line incremented under chars %s" % sorted(chars))
+        if "\n" not in chars:
+            r.violation("Position::line_col", where(n), "the line number is incremented on a path that did not "
+                        "consume '\\n' (chars %s)" % sorted(chars))
